@@ -55,6 +55,10 @@ def file_level(rep, fff, tabs, index, rng):
                 if len(set(names)) != len(names) or len(names) != len(vals):
                     continue
                 d = dict((n_, v_) for n_, v_ in zip(names, vals) if v_ is not None and rng.random() < 0.7)
+                for n_ in list(d):
+                    # an explicit zero is a value like any other (not an absent field)
+                    if isinstance(d[n_], (int, float)) and not isinstance(d[n_], bool) and rng.random() < 0.25:
+                        d[n_] = type(d[n_])(0)
                 try:
                     w.write_value_line(d, kind)
                 except Exception as ex:
